@@ -349,7 +349,6 @@ _Q = {
     "class:arm:hmm-tumor:edge-filtered": 3,
     "extra:calls-with-arm-split": 20,
     "extra:sequence:grown-in-place": 40,
-    "extra:outlier-filter-calls-with-flagged-bins:several-chromosomes": 3,
     "extra:calls-completing-out-of-submission-order": 5,
     "extra:calls-spread-over-several-worker-processes": 20,
     "cli.segment[file]|held": 8, "cli.segment[plumbing]|held": 10,
@@ -358,8 +357,8 @@ QUOTAS = {"quick": _Q, "thorough": dict(_Q, **{"segmentation._do_segmentation[ar
 
 
 # if the per-arm internal is gone, its quotas are waived and the boundary-only monitor must have decided instead
-QUOTA_WAIVERS = {"monitor-unavailable:segmentation.drop_outliers": {"waive": ["extra:outlier-filter-calls-with-flagged-bins:several-chromosomes"], "require": {}},
-                 "monitor-unavailable:segmentation._do_segmentation[arm]": {
+# (the monitor on drop_outliers is auxiliary and carries no quota: a tree that filters outliers by another route is still judged by the arm monitor)
+QUOTA_WAIVERS = {"monitor-unavailable:segmentation._do_segmentation[arm]": {
     "waive": [k for k in _Q if k.startswith(("segmentation._do_segmentation", "segmentation.do_segmentation|", "class:arm:", "extra:calls-"))],
     "require": {"segmentation.do_segmentation[boundary-only]|held": 80}}}
 
